@@ -15,6 +15,8 @@
 //!                                           second dir; both directories are walked and compared
 //!
 //! cfg (8 tokens): v= comp= chunker= avg= min= max= dp= tp=     opt: gf=<pack grow factor> nr=<ranged reads per file>
+//! ro=<rounds of: damage the restored tree (blob-aligned blocks overwritten, truncated, extended, touched, removed, replaced,
+//! additional entries), restore over it with random delete / verify_existing, compare again>
 //! as=<0|1> (e2el: --as-path /src or the real path).  entries (path = hex components joined by `/`, mtime = `sec[.nanos]`):
 //!   F:<path>:<z|c|r|p>:<len>:<seed>:<mode>:<mtime>[:<names outside of the tree>]   file with generated content
 //!   D:<path>:<mode>:<mtime>    L:<path>:<target-hex>:<mtime>    H:<path>:<path of an F entry>  (further name, same inode)
@@ -30,6 +32,8 @@ use crate::util::{Rng, Stats, errkind, guarded, hex, unhex};
 
 #[path = "c01_ixr.rs"]
 pub mod ixr;
+#[path = "c01_time.rs"]
+pub mod time;
 use rustic_core::repofile::{BlobType, Chunker, ConfigFile, MasterKey, Metadata, Node, NodeType, SnapshotFile};
 use rustic_core::{
     BackupOptions, BlobId, Credentials, Excludes, IndexedFull, KeyOptions, LocalDestination, LsOptions, PathList, Repository, RestoreOptions,
@@ -143,21 +147,35 @@ struct Opts {
     nr: usize,
     /// e2el: back up with `--as-path /src` (true) or under the real absolute path of the temp dir
     as_path: bool,
+    /// rounds of "damage the restored tree, restore over it"
+    ro: usize,
+    /// witness switch: every round deletes and replaces all directories without a file or directory below them by files
+    /// (known defect: `restore --delete` removes the file but does not create the directory)
+    rd: bool,
+    /// witness switch: trees with several names of one inode get their rounds too, without damage (known defect: a second
+    /// restore over restored hardlinks fails with `InputOutput`: the link exists already)
+    hl: bool,
 }
 
 fn split_opts<'a, 'b>(t: &'a [&'b str]) -> Option<(Opts, &'a [&'b str])> {
-    let mut o = Opts { gf: None, nr: 6, as_path: true };
+    let mut o = Opts { gf: None, nr: 6, as_path: true, ro: 0, rd: false, hl: false };
     let mut i = 0;
     while i < t.len() && !t[i].contains(':') && t[i].contains('=') {
         let (k, v) = t[i].split_once('=')?;
         match k {
             "gf" => o.gf = Some(v.parse().ok()?),
             "nr" => o.nr = v.parse().ok()?,
-            "as" => {
-                o.as_path = match v {
+            "ro" => o.ro = v.parse().ok().filter(|r| *r <= 8)?,
+            "as" | "rd" | "hl" => {
+                let b = match v {
                     "0" => false,
                     "1" => true,
                     _ => return None,
+                };
+                match k {
+                    "as" => o.as_path = b,
+                    "rd" => o.rd = b,
+                    _ => o.hl = b,
                 }
             }
             _ => return None,
@@ -364,6 +382,8 @@ struct Exp {
     /// 'R' = the directory handed to `backup` itself: `LocalSource` skips the entry of depth 0, so its own permission bits
     /// and mtime are not in the snapshot (only its name and type are compared)
     tag: char,
+    /// one of several names of an inode inside the tree
+    hl: bool,
 }
 
 #[derive(Clone, Debug)]
@@ -479,6 +499,7 @@ fn verify<S: IndexedFull>(repo: &Repository<S>, root: &Node, exps: &[Exp], opts:
     }
     let mut rng = Rng::new(seed);
     let mut obs = Vec::new();
+    let mut bounds_of: BTreeMap<Vec<u8>, Vec<usize>> = BTreeMap::new();
     if std::env::var("VH_DEBUG").is_ok() {
         for (p, n) in &ls {
             eprintln!("ls {:?} {}", p, serde_json::to_string(n).unwrap_or_default());
@@ -549,6 +570,7 @@ fn verify<S: IndexedFull>(repo: &Repository<S>, root: &Node, exps: &[Exp], opts:
                         return Err(format!("oracle-fail:read_at-content:{off}:{l}:{len}"));
                     }
                 }
+                _ = bounds_of.insert(e.rel.clone(), bounds);
                 // ls of a file node is the file itself
                 for rec in [true, false] {
                     let m = ls_set(repo, n, &LsOptions::default().recursive(rec))?;
@@ -607,60 +629,230 @@ fn verify<S: IndexedFull>(repo: &Repository<S>, root: &Node, exps: &[Exp], opts:
     }
     // --- restore to a temporary directory through LocalDestination, compare with the source
     let dest_path = tmp.join("r");
-    let Some(dp) = dest_path.to_str() else { return Err("err:tempdir-name".into()) };
-    let dest = LocalDestination::new(dp, true, false).map_err(|e| format!("oracle-fail:dest-{}", errkind(&e)))?;
-    let ropts = RestoreOptions::default();
+    restore_into(repo, root, &dest_path, RestoreOptions::default()).map_err(|e| format!("oracle-fail:restore-{e}"))?;
+    compare_restored(&dest_path, exps, &[], "restore")?;
+    // --- restore again over modified versions of the restored tree (every choice from the op line's seed)
+    let hardlinks = exps.iter().any(|e| e.hl);
+    for round in 0..opts.ro {
+        if hardlinks && !opts.hl {
+            break; // known defect, see `Opts::hl`
+        }
+        let delete = opts.rd || rng.chance(1, 2);
+        let verify_existing = rng.chance(1, 2);
+        let extras = if hardlinks { vec![] } else { mutate_restored(&dest_path, exps, &bounds_of, &mut rng, delete, verify_existing, opts.rd).map_err(|e| format!("err:mutate-restored:{:?}", e.kind()))? };
+        let ropts = RestoreOptions::default().delete(delete).verify_existing(verify_existing);
+        restore_into(repo, root, &dest_path, ropts).map_err(|e| format!("oracle-fail:restore-over-existing-{e}:round{round}:delete={delete}:verify={verify_existing}"))?;
+        let keep: &[Vec<u8>] = if delete { &[] } else { &extras };
+        compare_restored(&dest_path, exps, keep, "restore-over-existing").map_err(|e| format!("{e}:round{round}:delete={delete}:verify={verify_existing}"))?;
+        if delete {
+            continue;
+        }
+        // leave a destination without additional entries for the next round
+        for x in &extras {
+            let p = dest_path.join(os(x));
+            if std::fs::symlink_metadata(&p).is_ok_and(|m| m.is_dir()) { std::fs::remove_dir_all(&p) } else { std::fs::remove_file(&p) }.map_err(|e| format!("err:mutate-restored:{:?}", e.kind()))?;
+        }
+        restore_into(repo, root, &dest_path, RestoreOptions::default()).map_err(|e| format!("oracle-fail:restore-over-existing-{e}:round{round}:cleanup"))?;
+    }
+    Ok(obs)
+}
+
+fn restore_into<S: IndexedFull>(repo: &Repository<S>, root: &Node, dest_path: &Path, ropts: RestoreOptions) -> Result<(), String> {
+    let Some(dp) = dest_path.to_str() else { return Err("tempdir-name".into()) };
+    let dest = LocalDestination::new(dp, true, false).map_err(|e| format!("dest-{}", errkind(&e)))?;
     let lsopts = LsOptions::default();
     let stream = || repo.ls(root, &lsopts);
-    let plan = stream().and_then(|s| repo.prepare_restore(&ropts, s, &dest, false)).map_err(|e| format!("oracle-fail:prepare-restore-{}", errkind(&e)))?;
-    stream().and_then(|s| repo.restore(plan, &ropts, s, &dest)).map_err(|e| format!("oracle-fail:restore-{}", errkind(&e)))?;
+    let plan = stream().and_then(|s| repo.prepare_restore(&ropts, s, &dest, false)).map_err(|e| format!("prepare-{}", errkind(&e)))?;
+    stream().and_then(|s| repo.restore(plan, &ropts, s, &dest)).map_err(|e| errkind(&e))
+}
+
+/// the restored directory holds exactly `exps` (plus `extras` and what is below them)
+fn compare_restored(dest_path: &Path, exps: &[Exp], extras: &[Vec<u8>], key: &str) -> Result<(), String> {
     let mut got = BTreeMap::new();
-    if walk_dir(&dest_path, Path::new(""), &mut got).is_err() {
-        return Err("oracle-fail:restore-walk".into());
+    if walk_dir(dest_path, Path::new(""), &mut got).is_err() {
+        return Err(format!("oracle-fail:{key}-walk"));
     }
+    got.retain(|k, _| !extras.iter().any(|x| k == x || (k.starts_with(x) && k.get(x.len()) == Some(&b'/'))));
     if got.len() != exps.len() {
-        return Err(format!("oracle-fail:restore-entry-count:{}:{}", got.len(), exps.len()));
+        let missing = exps.iter().find(|e| !got.contains_key(&e.rel)).map(|e| format!("missing={}:{}", hex(&e.rel), exp_char(e)));
+        let unexpected = got.keys().find(|k| !exps.iter().any(|e| &e.rel == *k)).map(|k| format!("unexpected={}", hex(k)));
+        return Err(format!("oracle-fail:{key}-entry-count:{}:{}:{}", got.len(), exps.len(), missing.or(unexpected).unwrap_or_default()));
     }
     for e in exps {
-        let Some(w) = got.get(&e.rel) else { return Err("oracle-fail:restore-name-missing".into()) };
+        let Some(w) = got.get(&e.rel) else { return Err(format!("oracle-fail:{key}-name-missing")) };
         if e.tag == 'R' {
             if w.kind != 'd' {
-                return Err("oracle-fail:restore-dir".into());
+                return Err(format!("oracle-fail:{key}-dir"));
             }
             continue;
         }
         let mtime_ok = w.mtime_s == e.mtime_s && w.ns == e.ns;
+        let mt = || format!("{}:{}.{:09}:{}.{:09}", e.hexp, w.mtime_s, w.ns, e.mtime_s, e.ns);
         match &e.kind {
             SrcKind::Dir => {
                 if w.kind != 'd' || w.mode != e.mode {
-                    return Err("oracle-fail:restore-dir".into());
+                    return Err(format!("oracle-fail:{key}-dir"));
                 }
                 if !mtime_ok {
-                    return Err("oracle-fail:restore-dir-mtime".into());
+                    return Err(format!("oracle-fail:{key}-dir-mtime:{}", mt()));
                 }
             }
             SrcKind::Symlink(t) => {
                 if w.kind != 'l' || &w.data != t {
-                    return Err("oracle-fail:restore-symlink".into());
+                    return Err(format!("oracle-fail:{key}-symlink"));
                 }
                 if !mtime_ok {
-                    return Err("oracle-fail:restore-symlink-mtime".into());
+                    return Err(format!("oracle-fail:{key}-symlink-mtime:{}", mt()));
                 }
             }
             SrcKind::File(c) => {
                 if w.kind != 'f' || &w.data != c {
-                    return Err("oracle-fail:restore-content".into());
+                    return Err(format!("oracle-fail:{key}-content:{}:{}:{}", e.hexp, w.data.len(), c.len()));
                 }
                 if w.mode != e.mode {
-                    return Err("oracle-fail:restore-mode".into());
+                    return Err(format!("oracle-fail:{key}-mode"));
                 }
                 if !mtime_ok {
-                    return Err("oracle-fail:restore-mtime".into());
+                    return Err(format!("oracle-fail:{key}-mtime:{}", mt()));
                 }
             }
         }
     }
-    Ok(obs)
+    Ok(())
+}
+
+fn set_mtime(p: &Path, t: std::time::SystemTime) -> std::io::Result<()> {
+    std::fs::File::open(p)?.set_times(std::fs::FileTimes::new().set_accessed(t).set_modified(t))
+}
+
+/// Turn the restored tree into an older / damaged version of itself: blocks of files (aligned with the blobs of the
+/// snapshot) overwritten in place, files truncated / extended / touched / removed / replaced by something else,
+/// directories removed or replaced, additional entries.  Returns the additional entries (relative paths).
+#[allow(clippy::too_many_lines)]
+fn mutate_restored(dest: &Path, exps: &[Exp], bounds_of: &BTreeMap<Vec<u8>, Vec<usize>>, rng: &mut Rng, delete: bool, verify_existing: bool, rd: bool) -> std::io::Result<Vec<Vec<u8>>> {
+    use std::io::{Seek, SeekFrom, Write};
+    use std::os::unix::fs::PermissionsExt;
+    let mut gone: Vec<Vec<u8>> = vec![];
+    let below = |k: &[u8], x: &[u8]| k.starts_with(x) && k.get(x.len()) == Some(&b'/');
+    for e in exps {
+        if e.tag == 'R' || gone.iter().any(|g| below(&e.rel, g)) {
+            continue;
+        }
+        let p = dest.join(os(&e.rel));
+        let old_mtime = sys_time(e.mtime_s, e.ns);
+        let new_mtime = sys_time(e.mtime_s + 1 + rng.below(1000) as i64, 0);
+        match &e.kind {
+            SrcKind::File(c) => {
+                let b = &bounds_of[&e.rel];
+                let nblocks = b.len() - 1;
+                match rng.below(12) {
+                    0 | 1 | 2 | 3 if nblocks > 0 => {
+                        // blocks overwritten in place: every second one, or a random subset
+                        let pattern = rng.below(3);
+                        let mut f = std::fs::OpenOptions::new().write(true).open(&p)?;
+                        let mut any = false;
+                        for i in 0..nblocks {
+                            let hit = match pattern {
+                                0 => i % 2 == 1,
+                                1 => i % 2 == 0,
+                                _ => rng.chance(1, 3),
+                            };
+                            if hit && b[i + 1] > b[i] {
+                                let other: Vec<u8> = c[b[i]..b[i + 1]].iter().map(|x| !x).collect();
+                                _ = f.seek(SeekFrom::Start(b[i] as u64))?;
+                                f.write_all(&other)?;
+                                any = true;
+                            }
+                        }
+                        drop(f);
+                        // an unchanged mtime hides the damage from a restore that does not verify existing files
+                        let keep_mtime = (verify_existing || !any) && rng.chance(1, 2);
+                        set_mtime(&p, if keep_mtime { old_mtime } else { new_mtime })?;
+                    }
+                    4 if !c.is_empty() => {
+                        let f = std::fs::OpenOptions::new().write(true).open(&p)?;
+                        f.set_len(rng.below(c.len() as u64))?;
+                    }
+                    5 => {
+                        let mut f = std::fs::OpenOptions::new().append(true).open(&p)?;
+                        let n = 1 + rng.below(100) as usize;
+                        f.write_all(&rng.bytes(n))?;
+                    }
+                    6 => set_mtime(&p, new_mtime)?,
+                    7 => std::fs::remove_file(&p)?,
+                    8 => std::fs::set_permissions(&p, std::fs::Permissions::from_mode(0o600))?,
+                    9 if delete => {
+                        std::fs::remove_file(&p)?;
+                        if rng.chance(1, 2) {
+                            std::fs::create_dir(&p)?;
+                            std::fs::write(p.join("inner"), b"x")?;
+                        } else {
+                            std::os::unix::fs::symlink("elsewhere", &p)?;
+                        }
+                    }
+                    _ => {}
+                }
+            }
+            SrcKind::Symlink(_) => {
+                if delete && rng.chance(1, 3) {
+                    std::fs::remove_file(&p)?;
+                    if rng.chance(1, 2) {
+                        std::os::unix::fs::symlink("stale-target", &p)?;
+                    } else {
+                        std::fs::write(&p, b"was a symlink")?;
+                    }
+                } else if rng.chance(1, 6) {
+                    std::fs::remove_file(&p)?;
+                }
+            }
+            SrcKind::Dir => {
+                // is there something below it that re-creates it on the way (`create_dir_all` of a directory / of a file's parent)?
+                // If not, `restore --delete` removes the file in its place but never creates it: known defect, `Opts::rd`
+                let recreated = exps.iter().any(|x| below(&x.rel, &e.rel) && !matches!(x.kind, SrcKind::Symlink(_)));
+                let r = rng.below(16);
+                if rd {
+                    if !recreated {
+                        std::fs::remove_dir_all(&p)?;
+                        std::fs::write(&p, b"was a directory")?;
+                        gone.push(e.rel.clone());
+                    }
+                } else if r == 0 {
+                    std::fs::remove_dir_all(&p)?;
+                    gone.push(e.rel.clone());
+                } else if r == 1 && delete && recreated {
+                    std::fs::remove_dir_all(&p)?;
+                    std::fs::write(&p, b"was a directory")?;
+                    gone.push(e.rel.clone());
+                } else if r == 2 {
+                    set_mtime(&p, new_mtime)?;
+                } else if r == 3 {
+                    std::fs::set_permissions(&p, std::fs::Permissions::from_mode(0o700))?;
+                }
+            }
+        }
+    }
+    // additional entries: at the top, inside a directory that is still there
+    let mut extras = vec![];
+    let dirs: Vec<&Exp> = exps.iter().filter(|e| matches!(e.kind, SrcKind::Dir) && !gone.iter().any(|g| &e.rel == g || below(&e.rel, g))).collect();
+    for i in 0..rng.below(3) {
+        let mut rel = if dirs.is_empty() || rng.chance(1, 3) { vec![] } else { rng.pick(&dirs).rel.clone() };
+        if !rel.is_empty() {
+            rel.push(b'/');
+        }
+        rel.extend_from_slice(format!("zz-extra-{i}").as_bytes());
+        if exps.iter().any(|e| e.rel == rel) {
+            continue;
+        }
+        let p = dest.join(os(&rel));
+        if rng.chance(1, 2) {
+            std::fs::write(&p, b"additional")?;
+        } else {
+            std::fs::create_dir(&p)?;
+            std::fs::write(p.join("f"), b"additional")?;
+        }
+        extras.push(rel);
+    }
+    Ok(extras)
 }
 
 fn check_clean(h: &RepoHandle) -> Result<(), String> {
@@ -669,6 +861,10 @@ fn check_clean(h: &RepoHandle) -> Result<(), String> {
         Ok(e) => Err(format!("oracle-fail:check-after-backup:{}", e.into_iter().collect::<Vec<_>>().join(","))),
         Err(e) => Err(format!("oracle-fail:check-after-backup:{e}")),
     }
+}
+
+fn is_hl(ents: &[PEnt], pe: &PEnt) -> bool {
+    matches!(pe.tag, Tag::Hard(_)) || ents.iter().any(|x| x.tag == Tag::Hard(pe.e.path.clone()))
 }
 
 fn mem_entry(pe: &PEnt) -> SrcEntry {
@@ -741,13 +937,13 @@ fn e2e(cfg: &Cfg, opts: &Opts, mut ents: Vec<PEnt>, seed: u64) -> String {
         (_, SrcKind::Dir) => 'd',
         (_, SrcKind::Symlink(_)) => 'l',
     };
-    let mut exps = vec![Exp { rel: b"src".to_vec(), hexp: String::new(), kind: SrcKind::Dir, mode: 0o755, mtime_s: ROOT_MTIME, ns: 0, tag: '-' }];
+    let mut exps = vec![Exp { rel: b"src".to_vec(), hexp: String::new(), kind: SrcKind::Dir, mode: 0o755, mtime_s: ROOT_MTIME, ns: 0, tag: '-', hl: false }];
     for pe in &ents {
-        exps.push(Exp { rel: join_rel(b"src", &pe.e.path), hexp: hexpath(&pe.e.path), kind: pe.e.kind.clone(), mode: pe.e.mode, mtime_s: pe.e.mtime_s, ns: 0, tag: tagc(pe) });
+        exps.push(Exp { rel: join_rel(b"src", &pe.e.path), hexp: hexpath(&pe.e.path), kind: pe.e.kind.clone(), mode: pe.e.mode, mtime_s: pe.e.mtime_s, ns: 0, tag: tagc(pe), hl: is_hl(&ents, pe) });
     }
     for e in &src.entries {
         if !ents.iter().any(|pe| pe.e.path == e.path) {
-            exps.push(Exp { rel: join_rel(b"src", &e.path), hexp: String::new(), kind: SrcKind::Dir, mode: go_perm(e.mode), mtime_s: e.mtime_s, ns: 0, tag: '-' });
+            exps.push(Exp { rel: join_rel(b"src", &e.path), hexp: String::new(), kind: SrcKind::Dir, mode: go_perm(e.mode), mtime_s: e.mtime_s, ns: 0, tag: '-', hl: false });
         }
     }
     let tmp = match tempfile::tempdir() {
@@ -857,7 +1053,7 @@ fn e2el(cfg: &Cfg, opts: &Opts, ents: Vec<PEnt>, seed: u64) -> String {
     }
     let mut exps = Vec::new();
     if opts.as_path {
-        exps.push(Exp { rel: b"src".to_vec(), hexp: String::new(), kind: SrcKind::Dir, mode: 0o755, mtime_s: ROOT_MTIME, ns: 0, tag: 'R' });
+        exps.push(Exp { rel: b"src".to_vec(), hexp: String::new(), kind: SrcKind::Dir, mode: 0o755, mtime_s: ROOT_MTIME, ns: 0, tag: 'R', hl: false });
     }
     let prefix: &[u8] = if opts.as_path { b"src" } else { b"" };
     for pe in &ents {
@@ -871,7 +1067,7 @@ fn e2el(cfg: &Cfg, opts: &Opts, ents: Vec<PEnt>, seed: u64) -> String {
         if !kind_ok {
             return "err:src-differs-from-tokens".into();
         }
-        exps.push(Exp { rel: join_rel(prefix, &pe.e.path), hexp: hexpath(&pe.e.path), kind: pe.e.kind.clone(), mode: w.mode, mtime_s: w.mtime_s, ns: w.ns, tag });
+        exps.push(Exp { rel: join_rel(prefix, &pe.e.path), hexp: hexpath(&pe.e.path), kind: pe.e.kind.clone(), mode: w.mode, mtime_s: w.mtime_s, ns: w.ns, tag, hl: is_hl(&ents, pe) });
     }
     let h = match init_with(cfg, opts.gf) {
         Ok(h) => h,
@@ -1009,6 +1205,7 @@ pub fn exec(toks: &[&str]) -> String {
                 format!("ok {} {} {s}", u8::from(linktarget_raw.is_some()), hex(&back))
             }
             ["ixr", rest @ ..] => ixr::exec(rest),
+            ["time", rest @ ..] => time::exec(rest),
             ["e2e", rest @ ..] => run_e2e(rest, false),
             ["e2el", rest @ ..] => run_e2e(rest, true),
             _ => "bad-op".into(),
@@ -1070,6 +1267,7 @@ fn gen_cfg(rng: &mut Rng, stats: &mut Stats) -> Cfg {
 pub fn generate(thorough: bool, rng: &mut Rng, ops: &mut Vec<String>, stats: &mut Stats) {
     // the indexer's index files (own rng stream, so the other generators keep their cases)
     ixr::generate(thorough, &mut Rng::new(rng.below(1 << 60)), ops, stats);
+    time::generate(thorough, &mut Rng::new(rng.below(1 << 60)), ops, stats);
     // file names
     for n in NAMES {
         ops.push(format!("c01 esc {}", hex(n)));
@@ -1694,6 +1892,11 @@ fn gen_case(scn: &str, local: bool, thorough: bool, rng: &mut Rng, stats: &mut S
         toks.push(format!("gf={g}"));
     }
     toks.push(format!("nr={}", rng.range(20, 40)));
+    let ro = *rng.pick(&[0usize, 1, 1, 1, 1, 2, 2, 3]);
+    if ro > 0 {
+        stats.hit(format!("restore-over-existing.rounds.{ro}"));
+        toks.push(format!("ro={ro}"));
+    }
     if local {
         let a = rng.chance(2, 3);
         stats.hit(if a { "e2el.as-path" } else { "e2el.real-path" });
